@@ -110,8 +110,9 @@ def executions(case: dict[str, Any]) -> Iterator[dict[str, Any]]:
             yield dict(base, spec=spec, **env())
         spec = {"entry": "assemble", "src": "main.s", "rom": m, "out": "out.sfc", "defines": defines, "symfile": "out.sym"}
         yield dict(base, spec=spec, **env())
-    # default-option paths: no -m / no mapping argument at all (must behave as low)
+    # default-option paths: no -m / no mapping argument at all (must behave as low); no -o (a.out); no -f (ips)
     if prog.mapping == "low":
+        yield dict(base, spec={"entry": "cli", "src": "main.s", "out": "a.out", "no_output_opt": True, "defines": defines, "verbose": True, "dump_symbols": True}, **env())
         yield dict(base, spec={"entry": "cli", "src": "main.s", "out": "out.ips", "defines": defines}, **env())
         yield dict(base, spec={"entry": "patch", "src": "main.s", "out": "out.ips", "defines": defines}, **env())
 
@@ -168,7 +169,7 @@ def run_single(case: dict[str, Any], stats: Stats) -> list[Violation]:
         return []
     files = prog.all_files()
     roles = prog.all_roles()
-    roles.update({"out.ips": "out_ips", "out.sfc": "out_sfc", "out.sym": "symfile"})
+    roles.update({"out.ips": "out_ips", "out.sfc": "out_sfc", "out.sym": "symfile", "a.out": "out_ips"})
     if case.get("stale") is not None:
         import random as _r
 
@@ -177,7 +178,7 @@ def run_single(case: dict[str, Any], stats: Stats) -> list[Violation]:
     o = entries.execute_one(files, roles, spec, case.get("knobs") or {}, [])
     stats.add_outcome(o)
     entry = spec["entry"]
-    fmt = "ips" if spec["out"].endswith(".ips") else "sfc"
+    fmt = spec.get("format") or ("sfc" if spec["out"].endswith(".sfc") else "ips")
     copier = bool(spec.get("copier"))
     stats.bump(f"probe:lattice:{entry}:{fmt}:{'copier' if copier else 'plain'}")
     stats.bump(f"probe:mapping:{mapping}")
